@@ -227,6 +227,11 @@ Section Engine.
   Theorem rebuild_now_consistent st : engine_consistent (rebuild_now st).
   Proof. reflexivity. Qed.
 
+  (** A restart of the process builds the engine from the files of the lists
+      it has just loaded ([startDNSServer]: [EnableFilters(false)]). *)
+  Theorem restart_consistent st : engine_consistent (restart crc st).
+  Proof. reflexivity. Qed.
+
   (** ** Histories *)
 
   (** No pass of the history ends with a network error. *)
@@ -257,6 +262,7 @@ Section Engine.
     - now apply good_pass_keeps_consistent.
     - now apply set_props_keeps_consistent.
     - apply rebuild_now_consistent.
+    - apply restart_consistent.
   Qed.
 
   (** ... and in ANY history (network errors included), whatever the engine
@@ -268,6 +274,7 @@ Section Engine.
     | HRefresh b a f due oc => pass_net_error b a f due oc st = false /\ pass_updated b a f due oc st <> 0
     | HSet a u name nu en o => fst (set_props a u name nu en o st) = (true, false)
     | HRebuild => True
+    | HRestart => True
     end.
 
   Theorem rebuilding_step_consistent hs h st :
@@ -280,6 +287,7 @@ Section Engine.
       destruct (set_props allow url name nurl enabled o s) as [[rs er] st']. cbn [fst snd] in *.
       injection E as -> ->. now apply R.
     - intros _. apply rebuild_now_consistent.
+    - intros _. apply restart_consistent.
   Qed.
 End Engine.
 
@@ -493,12 +501,36 @@ Section Urls.
       + apply (nodup_replace (map f_url pre) (map f_url post) (map f_url (r_allow st)) (f_url f) nurl true); assumption.
   Qed.
 
+  (** A restart keeps the URLs: [deduplicateFilters] drops nothing when they
+      are pairwise different. *)
+  Lemma start_array_nodup_urls all fs ls :
+    NoDup (map f_url ls) -> start_array crc all fs ls = map (fun f => load_entry crc all fs (persisted f)) ls.
+  Proof.
+    intros ND. unfold start_array. apply dedup_nodup_urls; [|intros u []].
+    rewrite map_map. erewrite map_ext; [exact ND|]. intros f. apply load_entry_fields.
+  Qed.
+
+  Lemma restart_v_arrays all st : NoDup (urls st) ->
+    r_block (restart_v crc all st) = map (fun f => load_entry crc all (r_files st) (persisted f)) (r_block st) /\
+    r_allow (restart_v crc all st) = map (fun f => load_entry crc all (r_files st) (persisted f)) (r_allow st).
+  Proof.
+    unfold urls. rewrite map_app. intros ND. unfold restart_v. cbn [r_block r_allow].
+    split; apply start_array_nodup_urls; [eapply nodup_app_l|eapply nodup_app_r]; exact ND.
+  Qed.
+
+  Lemma restart_urls st : NoDup (urls st) -> urls (restart crc st) = urls st.
+  Proof.
+    intros ND. destruct (restart_v_arrays false st ND) as [B A]. unfold urls, restart. rewrite B, A.
+    rewrite !map_app, !map_map. f_equal; apply map_ext; intros f; apply load_entry_fields.
+  Qed.
+
   (** Over every history the lists keep pairwise different URLs (so the
       lookup by URL of set_url finds the one list that has it). *)
   Theorem history_urls_unique hs : forall st, NoDup (urls st) -> NoDup (urls (run_hist crc hs st)).
   Proof.
     unfold run_hist. induction hs as [|h hs IH]; intros st ND; cbn [fold_left]; auto.
-    apply IH. destruct h; cbn [run_hop]; [now rewrite refresh_urls|now apply set_props_urls|exact ND].
+    apply IH. destruct h; cbn [run_hop];
+      [now rewrite refresh_urls|now apply set_props_urls|exact ND|now rewrite restart_urls].
   Qed.
 End Urls.
 
